@@ -280,53 +280,165 @@ func isLenGuard(e ast.Expr) bool {
 	return ok && id.Name == "len"
 }
 
+// stackEffects computes, for the code reachable from block `from` up to the function's exits, what it does to the fields
+// of the TypeInfo receiver: per stack field (slice-typed) the number of pushes (store of append(field, …)) or pops
+// (store of a re-slice of the field), and the set of other fields stored. same reports whether every path has the same
+// push/pop counts. Branches on `len(stack) > 0` (the defensive guard around a pop) are taken as true; blocks are visited
+// once per path (a loop body contributes once).
+func stackEffects(from *ssa.BasicBlock, push bool) (counts map[string]int, scalars map[string]bool, same bool) {
+	scalars = map[string]bool{}
+	blockEff := func(b *ssa.BasicBlock) map[string]int {
+		eff := map[string]int{}
+		for _, in := range b.Instrs {
+			st, ok := in.(*ssa.Store)
+			if !ok {
+				continue
+			}
+			fa, ok := st.Addr.(*ssa.FieldAddr)
+			if !ok || core.TypeName(fa.X.Type()) != "TypeInfo" {
+				continue
+			}
+			f := core.FieldOf(fa)
+			if f == nil {
+				continue
+			}
+			if _, isSlice := f.Type().Underlying().(*types.Slice); !isSlice {
+				scalars[core.N(f)] = true
+				continue
+			}
+			switch v := st.Val.(type) {
+			case *ssa.Call:
+				if b, ok := v.Call.Value.(*ssa.Builtin); ok && b.Name() == "append" && push {
+					eff[core.N(f)]++
+				}
+			case *ssa.Slice:
+				if !push {
+					eff[core.N(f)]++
+				}
+			}
+		}
+		return eff
+	}
+	isLenGuard := func(iff *ssa.If) bool {
+		bo, ok := iff.Cond.(*ssa.BinOp)
+		if !ok || (bo.Op != token.GTR && bo.Op != token.NEQ) {
+			return false
+		}
+		call, ok := bo.X.(*ssa.Call)
+		if !ok {
+			return false
+		}
+		b, ok := call.Call.Value.(*ssa.Builtin)
+		return ok && b.Name() == "len"
+	}
+	var results []map[string]int
+	onPath := map[*ssa.BasicBlock]bool{}
+	var walk func(b *ssa.BasicBlock, acc map[string]int, depth int)
+	walk = func(b *ssa.BasicBlock, acc map[string]int, depth int) {
+		if onPath[b] || depth > 200 || len(results) > 4096 {
+			return
+		}
+		onPath[b] = true
+		defer func() { onPath[b] = false }()
+		cur := map[string]int{}
+		for k, v := range acc {
+			cur[k] = v
+		}
+		for k, v := range blockEff(b) {
+			cur[k] += v
+		}
+		if len(b.Succs) == 0 {
+			results = append(results, cur)
+			return
+		}
+		if iff, ok := b.Instrs[len(b.Instrs)-1].(*ssa.If); ok && !push && isLenGuard(iff) {
+			walk(b.Succs[0], cur, depth+1)
+			return
+		}
+		for _, s := range b.Succs {
+			walk(s, cur, depth+1)
+		}
+	}
+	walk(from, map[string]int{}, 0)
+	same = true
+	for _, r := range results {
+		if counts == nil {
+			counts = r
+			continue
+		}
+		if fmt.Sprint(r) != fmt.Sprint(counts) {
+			same = false
+		}
+	}
+	if counts == nil {
+		counts = map[string]int{}
+	}
+	return
+}
+
 func c14TypeInfo(c *core.Ctx, r *core.Reporter) {
-	p, enter := c.FindDecl("", "TypeInfo.Enter")
-	_, leave := c.FindDecl("", "TypeInfo.Leave")
+	enter := c.Func("", "TypeInfo.Enter")
+	leave := c.Func("", "TypeInfo.Leave")
 	if enter == nil || leave == nil {
 		r.Unknown("TypeInfo", token.NoPos, "TypeInfo.Enter / Leave not found")
 		return
 	}
-	info := p.TypesInfo
 	type eff struct {
 		counts  map[string]int
 		scalars map[string]bool
 		ok      bool
 		pos     token.Pos
 	}
+	// Enter: one arm per asserted node type (type switch or assertion chain alike: in SSA both are comma-ok assertions
+	// followed by a branch on ok)
 	ent := map[string]eff{}
-	sws := core.TypeSwitches(info, enter.Body, false)
-	if len(sws) != 1 {
-		r.Unknown("TypeInfo.Enter", enter.Pos(), "expected one type switch in Enter")
-		return
-	}
-	seenClause := map[*ast.CaseClause]bool{}
-	for tn, cl := range sws[0].Clauses {
-		if seenClause[cl] && len(cl.List) > 1 {
-			// multi-type clause: same effect for each
+	core.Instrs(enter, func(in ssa.Instruction) {
+		ta, ok := in.(*ssa.TypeAssert)
+		if !ok || !ta.CommaOk {
+			return
 		}
-		seenClause[cl] = true
-		cs, sc, ok := pushPop(info, cl.Body, true)
-		ent[tn] = eff{cs, sc, ok, cl.Pos()}
-	}
-	lv := map[string]eff{}
-	ast.Inspect(leave.Body, func(n ast.Node) bool {
-		sw, ok := n.(*ast.SwitchStmt)
-		if !ok {
-			return true
+		n := core.NamedOf(ta.AssertedType)
+		if n == nil || n.Obj().Pkg() == nil || n.Obj().Pkg().Name() != "ast" || ta.X.Type().String() != "github.com/graphql-go/graphql/language/ast.Node" {
+			return
 		}
-		for _, cl := range sw.Body.List {
-			cc := cl.(*ast.CaseClause)
-			cs, sc, ok := pushPop(info, cc.Body, false)
-			for _, e := range cc.List {
-				k := constString(info, e)
-				if k != "" {
-					lv[k] = eff{cs, sc, ok, cc.Pos()}
+		for _, ref := range *ta.Referrers() {
+			ex, ok := ref.(*ssa.Extract)
+			if !ok || ex.Index != 1 {
+				continue
+			}
+			for _, u := range *ex.Referrers() {
+				if iff, ok := u.(*ssa.If); ok {
+					cs, sc, same := stackEffects(iff.Block().Succs[0], true)
+					ent[core.TypeName(ta.AssertedType)] = eff{cs, sc, same, ta.Pos()}
 				}
 			}
 		}
-		return false
 	})
+	// Leave: one arm per kind constant compared with the node's kind
+	lv := map[string]eff{}
+	core.Instrs(leave, func(in ssa.Instruction) {
+		iff, ok := in.(*ssa.If)
+		if !ok {
+			return
+		}
+		bo, ok := iff.Cond.(*ssa.BinOp)
+		if !ok || bo.Op != token.EQL {
+			return
+		}
+		k, isConst := core.ConstString(bo.Y)
+		if !isConst {
+			k, isConst = core.ConstString(bo.X)
+		}
+		if !isConst || k == "" {
+			return
+		}
+		cs, sc, same := stackEffects(iff.Block().Succs[0], false)
+		lv[k] = eff{cs, sc, same, iff.Pos()}
+	})
+	if len(ent) < 5 || len(lv) < 5 {
+		r.Unknown("TypeInfo", enter.Pos(), "could not recover the arms of TypeInfo.Enter (%d) / Leave (%d)", len(ent), len(lv))
+		return
+	}
 	all := map[string]bool{}
 	for k := range ent {
 		all[k] = true
@@ -348,6 +460,8 @@ func c14TypeInfo(c *core.Ctx, r *core.Reporter) {
 			r.Bad(k, pos, "TypeInfo.Enter pushes %v / sets %v for %s but Leave has no arm for that kind: the entries stay on the stacks for the rest of the traversal (every later Type()/ParentType()/InputType() is wrong)", e.counts, core.SortedKeys(e.scalars), k)
 		case !e.ok:
 			r.Bad(k, pos, "TypeInfo.Enter does not push the same stacks on every path of the %s arm", k)
+		case lok && !l.ok:
+			r.Bad(k, pos, "TypeInfo.Leave does not pop the same stacks on every path of the %s arm", k)
 		case fmt.Sprint(e.counts) != fmt.Sprint(l.counts):
 			r.Bad(k, pos, "for %s TypeInfo.Enter pushes %v but Leave pops %v", k, e.counts, l.counts)
 		case fmt.Sprint(core.SortedKeys(e.scalars)) != fmt.Sprint(core.SortedKeys(l.scalars)):
